@@ -424,6 +424,16 @@ def getTxGroupGate (t : Transaction) : GroupOf :=
   else if t.next ≠ [] ∨ t.header ≠ [] then .err .nomalTx
   else .single
 
+/-- `Next` of a member: hash of the (already rewritten) following member; the last member keeps
+whatever it had. -/
+def nextOf (H : Bytes → Bytes) (dflt : Bytes) : List Transaction → Bytes
+  | [] => dflt
+  | u :: _ => H (encode (stripSigHeader u))
+
+/-- a non-head member as `CreateTxGroup` rewrites it (count, provisional header, fee 0, next). -/
+def mkMember (t : Transaction) (n : Nat) (header0 : Bytes) (nxt : Bytes) : Transaction :=
+  { t with groupCount := Int.ofNat n, header := header0, fee := 0, next := nxt }
+
 /-- backwards pass of `CreateTxGroup` over members 1..n-1 (processed last to first):
 returns the rewritten tail, the accumulated original fees and required fees. -/
 def createTail (H : Bytes → Bytes) (n : Nat) (header0 : Bytes) (feeRate : Int) :
@@ -433,10 +443,7 @@ def createTail (H : Bytes → Bytes) (n : Nat) (header0 : Bytes) (feeRate : Int)
     match createTail H n header0 feeRate rest with
     | .error e => .error e
     | .ok (rest', tot, minf) =>
-      let nxt := match rest' with
-        | [] => t.next                       -- last member: `Next` is left as it was
-        | u :: _ => H (encode (stripSigHeader u))
-      let t' := { t with groupCount := Int.ofNat n, header := header0, fee := 0, next := nxt }
+      let t' := mkMember t n header0 (nextOf H t.next rest')
       match realFee t' feeRate with
       | .error e => .error e
       | .ok rf => .ok (t' :: rest', tot + t.fee, minf + rf)
@@ -457,9 +464,7 @@ def createGroupWith (H : Bytes → Bytes) (txs : List Transaction) (feeRate : In
     match createTail H n header0 feeRate tail with
     | .error e => .error e
     | .ok (tail', tot, minf) =>
-      let nxt := match tail' with
-        | [] => t0.next
-        | u :: _ => H (encode (stripSigHeader u))
+      let nxt := nextOf H t0.next tail'
       match realFee (mkHead t0 n header0 (2^62) nxt) feeRate with
       | .error e => .error e
       | .ok rf =>
